@@ -180,6 +180,21 @@ def main(run):
         g = core.Gen(run.rng, max_stmts=140, max_depth=2)
         g.long_main = True
         progs.append(g.program())
+    # source-level corpus for the features of the core language outside FerretCore (for-in over arrays, nested closures in their
+    # plain syntax, results with catch, variadics): hand-checked expected output, compared exactly
+    sdir = os.path.join(common.VERIF, "corpus", "C01src")
+    for fn in sorted(os.listdir(sdir)) if os.path.isdir(sdir) else []:
+        if not fn.endswith(".fer"): continue
+        src = open(os.path.join(sdir, fn)).read()
+        exp = open(os.path.join(sdir, fn[:-4] + ".expected")).read()
+        r = common.compile_and_run(src, work, "src_" + fn[:-4].replace("-", "_"))
+        run.case(src, nontrivial=True); run.count("source-corpus")
+        if not r.get("accepted"):
+            run.violation("source-corpus:%s:rejected" % fn, "the core-language program corpus/C01src/%s is rejected: %s" % (fn, (r.get("cout", "") + r.get("cerr", ""))[-400:]),
+                          {"program": src, "expected_stdout": exp})
+        elif r.get("rc") != 0 or r.get("out") != exp:
+            run.violation("source-corpus:%s" % fn, "corpus/C01src/%s: expected stdout %r and exit 0, observed %r rc=%s" % (fn, exp[:200], (r.get("out") or "")[:200], r.get("rc")),
+                          {"program": src, "expected_stdout": exp, "stdout": r.get("out"), "rc": r.get("rc")})
     corpus = load_corpus()
     run.extra["corpus_programs"] = len(corpus)
     progs = corpus + progs
